@@ -50,6 +50,23 @@ class Hang(SimAbort):
   """Virtual time exceeded the liveness bound of the run."""
 
 
+class _FrameTracer(object):
+  """Local trace function of one frame; one step per *change* of line."""
+  __slots__ = ('sim', 'last')
+
+  def __init__(self, sim):
+    self.sim = sim
+    self.last = -1
+
+  def __call__(self, frame, event, arg):
+    if event == 'line':
+      ln = frame.f_lineno
+      if ln != self.last:
+        self.last = ln
+        self.sim._local_trace(frame, event, arg)
+    return self
+
+
 class SimThread(object):
   __slots__ = ('sid', 'name', 'thread', 'baton', 'state', 'wait_obj',
                'deadline', 'timed_out', 'finished', 'pending_exc',
@@ -137,6 +154,8 @@ class Sim(object):
     self.main = None
     self.on_event = None  # optional callback(kind, args) run under the baton
     self.prefer = None    # thread to pick at the next forced pre-emption
+    self.sigint_info = None  # optional callable: extra facts logged when a SIGINT is delivered
+    self.watch_calls = frozenset()  # function names whose entry is logged as ('enter', name)
 
   # ---------------------------------------------------------------- tape use
   def _gap(self):
@@ -272,7 +291,11 @@ class Sim(object):
     for t in self.threads:
       if t.finished:
         continue
-      out.append('%d:%s:%s:%s' % (t.sid, t.name[:40], t.state, t.wait_what))
+      w = t.wait_obj
+      tag = ''
+      if t.state == 'blocked' and isinstance(w, SimLock) and w.owner is t:
+        tag = ':SELF-DEADLOCK'
+      out.append('%d:%s:%s:%s%s' % (t.sid, t.name[:40], t.state, t.wait_what, tag))
     return ' | '.join(out)
 
   def _unwait(self, st):
@@ -405,12 +428,20 @@ class Sim(object):
     code = frame.f_code
     c = self._code_cache.get(code)
     if c is None:
-      c = self._code_cache[code] = code.co_filename.startswith(self.trace_prefixes)
+      c = code.co_filename.startswith(self.trace_prefixes)
+      if c and code.co_name in self.watch_calls:
+        c = 2
+      self._code_cache[code] = c
     if c:
-      return self._local_trace
+      if c == 2 and event == 'call' and not self.shutting_down:
+        self.event('enter', code.co_name, code.co_filename.rsplit('/', 1)[-1])
+      return _FrameTracer(self)
     return None
 
   def _local_trace(self, frame, event, arg):
+    # (called through a per-frame _FrameTracer, which drops repeated events for one line:
+    # CPython 3.12 may or may not re-announce a line after a call returns, depending on
+    # whether the code object was instrumented before - process history must not matter)
     if event == 'line':
       self.steps += 1
       nt = self.next_trigger
@@ -440,7 +471,7 @@ class Sim(object):
             self._after_resume(me)
             if me.pending_exc is not None and me.pending_delay <= 0:
               self._raise_pending(me, frame.f_code.co_name)
-    return self._local_trace
+    return None
 
   def _steplimit(self):
     me = cur()
@@ -473,8 +504,11 @@ class Sim(object):
       sys.settrace(self._global_trace)
       f = sys._getframe(1)
       while f is not None:
-        if f.f_trace is None and self._global_trace(f, 'call', None):
-          f.f_trace = self._local_trace
+        if f.f_trace is None:
+          tr = self._global_trace(f, 'rearm', None)
+          if tr is not None:
+            tr.last = f.f_lineno
+            f.f_trace = tr
         f = f.f_back
 
   def deliver_at_sync(self, me):
@@ -488,7 +522,7 @@ class Sim(object):
   def _site_frame(self, f):
     g = f
     while g is not None:
-      if self._global_trace(g, 'call', None):
+      if self._global_trace(g, 'site', None):
         return g
       g = g.f_back
     return f
@@ -523,8 +557,9 @@ class Sim(object):
     self.sigint_pending -= 1
     site = frame.f_code.co_name if frame is not None else '?'
     line = frame.f_lineno if frame is not None else 0
-    self.sigint_sites.append((site, line, how))
-    self.event('sigint_delivered', site, how)
+    info = self.sigint_info() if self.sigint_info is not None else None
+    self.sigint_sites.append((site, line, how, info))
+    self.event('sigint_delivered', site, how, info)
     handler = signal.getsignal(signal.SIGINT)
     try:
       handler(signal.SIGINT, frame)
@@ -764,6 +799,7 @@ def _thread_start(self):
     _orig_thread_start(self)
   finally:
     parent.native -= 1
+  s.event('thread_start', st.sid, st.name[:40])
   s.hot('thread_start')
   s.yield_point(parent)
 
